@@ -42,7 +42,7 @@ FloatItems == {[f |-> "F4", v |-> <<p>>] : p \in F4Pats} \cup {[f |-> "F8", v |-
                     [f |-> "F8", v |-> <<F8Bits(0, 1023, <<0, 0, 0, 0, 0, 0, 0>>), F8Bits(1, 1024, <<8, 0, 0, 0, 0, 0, 0>>)>>]}
 
 (* ---- lists                                                                                      *)
-Leaves == {[f |-> "U1", v |-> <<N(FALSE, <<5>>)>>], [f |-> "A", v |-> <<120>>], [f |-> "L", v |-> <<>>], [f |-> "B", v |-> <<>>],
+Leaves == {[f |-> "U1", v |-> <<N(FALSE, <<5>>)>>], [f |-> "U1", v |-> <<N(FALSE, <<7>>), N(FALSE, <<255>>)>>], [f |-> "A", v |-> <<120>>], [f |-> "L", v |-> <<>>], [f |-> "B", v |-> <<>>],
            [f |-> "I2", v |-> <<N(TRUE, <<0, 1>>)>>], [f |-> "BOOLEAN", v |-> <<TRUE>>]}
 L1 == {[f |-> "L", v |-> q] : q \in SeqsUpTo2(Leaves)}
 L2 == {[f |-> "L", v |-> q] : q \in SeqsUpTo2(Leaves \cup {[f |-> "L", v |-> <<x>>] : x \in Leaves})}
